@@ -642,6 +642,187 @@ func defaultHeaderVariants(c *chain.Chain, s *chain.Step, fs *flat.State) (out [
 	return out
 }
 
+// crossForkOps: operations made by hand whose signing epoch lies on the OTHER side of the state's fork boundary than
+// another epoch the object or the state carries — so that taking the domain at any other epoch than the one the
+// specification names picks the other fork version:
+//   - attester slashing: two votes with data.slot in the last epoch BEFORE the fork and target.epoch = the fork epoch
+//     (domain by target epoch: the current version);
+//   - proposer slashing: two headers of the last slot before the fork (domain by the header's epoch: the previous version);
+//   - voluntary exit with exit.epoch = fork epoch - 1 (domain by exit.epoch: the previous version; deneb: capella's).
+// valid: ONE block carrying all of them (what fits and finds a validator), correctly signed; muts (c03): each object alone,
+// signed under the other version. Only where the fork record has two versions and fork.epoch >= 1.
+func crossForkOps(c *chain.Chain, s *chain.Step, fs *flat.State, rng *rand.Rand) (valid []blockVariant, muts []chain.Mutant) {
+	if fs.ForkPrevVersion == fs.ForkCurrVersion || fs.ForkEpoch == 0 {
+		return
+	}
+	spec := c.Spec
+	spe := uint64(spec.SLOTS_PER_EPOCH)
+	cur := fs.Slot / spe
+	fe := fs.ForkEpoch
+	before := common.Slot(fe*spe - 1)
+	body0 := s.Block.Body()
+	touched := map[common.ValidatorIndex]bool{s.Proposer: true}
+	for _, ps := range *body0.ProposerSlashings {
+		touched[ps.SignedHeader1.Message.ProposerIndex] = true
+	}
+	for _, as := range *body0.AttesterSlashings {
+		for _, v := range as.Attestation1.AttestingIndices {
+			touched[v] = true
+		}
+		for _, v := range as.Attestation2.AttestingIndices {
+			touched[v] = true
+		}
+	}
+	for _, ex := range *body0.VoluntaryExits {
+		touched[ex.Message.ValidatorIndex] = true
+	}
+	if body0.BLSChanges != nil {
+		for _, ch := range *body0.BLSChanges {
+			touched[ch.BLSToExecutionChange.ValidatorIndex] = true
+		}
+	}
+	type cand struct {
+		v   common.ValidatorIndex
+		k   int
+		old bool
+	}
+	var free []cand
+	for i := range fs.Validators {
+		f := &fs.Validators[i]
+		v := common.ValidatorIndex(i)
+		if touched[v] || f.Slashed || f.ActivationEpoch > cur || f.ExitEpoch != ^uint64(0) || f.WithdrawableEpoch != ^uint64(0) {
+			continue
+		}
+		if k, ok := c.KeyOf(v); ok {
+			free = append(free, cand{v, k, cur >= f.ActivationEpoch+uint64(spec.SHARD_COMMITTEE_PERIOD)})
+		}
+	}
+	rng.Shuffle(len(free), func(i, j int) { free[i], free[j] = free[j], free[i] })
+	if len(free) < 3 || len(free) < len(fs.Validators)/2 {
+		return // never thin out a registry that is already short of free validators
+	}
+	root := func(x byte) (r common.Root) {
+		r[0], r[1], r[31] = 0xcf, x, byte(fs.Slot)
+		return
+	}
+	hf := tree.GetHashFn()
+	gvr := fs.GenesisValidatorsRoot
+	// the three objects; sign(other) = under the version the specification does NOT name
+	mkAtt := func(x cand, other bool) phase0.AttesterSlashing {
+		d1 := phase0.AttestationData{Slot: before, Index: 0, BeaconBlockRoot: root(5),
+			Source: common.Checkpoint{Epoch: 0, Root: root(6)}, Target: common.Checkpoint{Epoch: common.Epoch(fe), Root: root(7)}}
+		d2 := d1
+		d2.BeaconBlockRoot = root(8)
+		who := []common.ValidatorIndex{x.v}
+		sig := func(d *phase0.AttestationData) common.BLSSignature {
+			if !other {
+				return c.SignIndexed(s.PreBlock, d, who)
+			}
+			return c.Keys.SignAggregate([]int{x.k}, signingRoot(d.HashTreeRoot(hf), computeDomain(domainBeaconAttester, fs.ForkPrevVersion, gvr)))
+		}
+		return phase0.AttesterSlashing{
+			Attestation1: phase0.IndexedAttestation{AttestingIndices: who, Data: d1, Signature: sig(&d1)},
+			Attestation2: phase0.IndexedAttestation{AttestingIndices: who, Data: d2, Signature: sig(&d2)}}
+	}
+	mkProp := func(x cand, other bool) phase0.ProposerSlashing {
+		h1 := common.BeaconBlockHeader{Slot: before, ProposerIndex: x.v, ParentRoot: root(1), StateRoot: root(2), BodyRoot: root(3)}
+		h2 := h1
+		h2.BodyRoot = root(4)
+		sig := func(h common.BeaconBlockHeader) common.SignedBeaconBlockHeader {
+			if !other {
+				return c.SignHeader(s.PreBlock, h, x.k)
+			}
+			return common.SignedBeaconBlockHeader{Message: h, Signature: c.Keys.Sign(x.k, signingRoot(h.HashTreeRoot(hf), computeDomain(domainBeaconProposer, fs.ForkCurrVersion, gvr)))}
+		}
+		return phase0.ProposerSlashing{SignedHeader1: sig(h1), SignedHeader2: sig(h2)}
+	}
+	mkExit := func(x cand, other bool) phase0.SignedVoluntaryExit {
+		ex := phase0.VoluntaryExit{Epoch: common.Epoch(fe - 1), ValidatorIndex: x.v}
+		if !other {
+			return c.SignExit(s.PreBlock, ex, x.k)
+		}
+		return phase0.SignedVoluntaryExit{Message: ex, Signature: c.Keys.Sign(x.k, signingRoot(ex.HashTreeRoot(hf), computeDomain(domainVoluntaryExit, fs.ForkCurrVersion, gvr)))}
+	}
+	var exitCand *cand
+	for i := 2; i < len(free); i++ {
+		if free[i].old {
+			exitCand = &free[i]
+			break
+		}
+	}
+	roomA := uint64(len(*body0.AttesterSlashings)) < uint64(spec.MAX_ATTESTER_SLASHINGS)
+	roomP := uint64(len(*body0.ProposerSlashings)) < uint64(spec.MAX_PROPOSER_SLASHINGS)
+	roomE := uint64(len(*body0.VoluntaryExits)) < uint64(spec.MAX_VOLUNTARY_EXITS) && exitCand != nil
+	if !roomA && !roomP && !roomE {
+		return
+	}
+	{
+		b := s.Block.Clone(spec)
+		body := b.Body()
+		if roomA {
+			*body.AttesterSlashings = append(*body.AttesterSlashings, mkAtt(free[0], false))
+		}
+		if roomP {
+			*body.ProposerSlashings = append(*body.ProposerSlashings, mkProp(free[1], false))
+		}
+		if roomE {
+			*body.VoluntaryExits = append(*body.VoluntaryExits, mkExit(*exitCand, false))
+		}
+		c.SignBlock(b, s.PreBlock)
+		valid = append(valid, blockVariant{"ops-signed-across-the-fork-boundary(valid)", "valid", fs, b})
+	}
+	one := func(label, rule string, f func(body chain.BodyRef)) {
+		b := s.Block.Clone(spec)
+		f(b.Body())
+		c.SignBlock(b, s.PreBlock)
+		muts = append(muts, chain.Mutant{Label: label, Rule: rule, Resigned: true, Block: b})
+	}
+	if roomA {
+		one("attester_slashing.signature:version-of-the-vote-slot-epoch-not-of-the-target-epoch", "attester_slashing.signature.fork", func(body chain.BodyRef) {
+			*body.AttesterSlashings = append(*body.AttesterSlashings, mkAtt(free[0], true))
+		})
+	}
+	if roomP {
+		one("proposer_slashing.signature:current-version-for-a-header-before-the-fork", "proposer_slashing.signature.fork", func(body chain.BodyRef) {
+			*body.ProposerSlashings = append(*body.ProposerSlashings, mkProp(free[1], true))
+		})
+	}
+	if roomE && flat.ForkIndex(fs.Fork) < 4 {
+		one("voluntary_exit.signature:current-version-for-an-exit-epoch-before-the-fork", "exit.signature.fork", func(body chain.BodyRef) {
+			*body.VoluntaryExits = append(*body.VoluntaryExits, mkExit(*exitCand, true))
+		})
+	}
+	return
+}
+
+// blsPrefixVariants: the block's first BLS-to-execution change meets a validator whose withdrawal credentials carry
+// another first byte than BLS_WITHDRAWAL_PREFIX (0x02, 0xff) over the SAME 31 hash bytes — refused for the prefix, the
+// hash and the signature would pass — or the BLS prefix over a wrong hash.
+func blsPrefixVariants(s *chain.Step, fs *flat.State) (out []blockVariant) {
+	ch := s.Block.Body().BLSChanges
+	if ch == nil || len(*ch) == 0 {
+		return nil
+	}
+	vi := int((*ch)[0].BLSToExecutionChange.ValidatorIndex)
+	if vi >= len(fs.Validators) || fs.Validators[vi].WithdrawalCredentials[0] != 0 {
+		return nil
+	}
+	for _, e := range []struct {
+		label string
+		f     func(w *[32]byte)
+	}{
+		{"pre-state:bls-change-validator-credentials-prefix-0x02-same-hash", func(w *[32]byte) { w[0] = 0x02 }},
+		{"pre-state:bls-change-validator-credentials-prefix-0xff-same-hash", func(w *[32]byte) { w[0] = 0xff }},
+		{"pre-state:bls-change-validator-credentials-bls-prefix-wrong-hash", func(w *[32]byte) { w[7] ^= 0x40 }},
+	} {
+		g := *fs
+		g.Validators = append([]flat.Validator(nil), fs.Validators...)
+		e.f(&g.Validators[vi].WithdrawalCredentials)
+		out = append(out, blockVariant{e.label, "bls_change.credentials", &g, nil})
+	}
+	return out
+}
+
 // blockVariant: a pre-state variant together with the block to run on it (nil: the step's block).
 type blockVariant struct {
 	label, rule string
